@@ -75,6 +75,11 @@ CHECKS = {
     technique="TLA+ model checking (TLC on PropsImpl: abstract heap, all call sequences to a bounded depth) bound to storage.c by replay of every exported transition and by TLC trace validation (PropsObs) of allocator + projection traces recorded through a malloc/realloc/free link seam",
     text="PropsImpl.tla models init/set_uri/set_external_metadata/set_access_key_and_secret/set_dimension/set_enable_multiscale/copy/destroy over 2-3 objects with an abstract heap (allocation ids never reused, live flags, who points where), seven caller-string kinds (NULL, empty, short, long, unterminated, zero-byte, NULL-with-length, borrowed) and 0..2 dimensions; TLC explores all call sequences to depth 3-6 (4-8 thorough) and checks no sharing, every free hits a live cell, nothing dangling or leaked, strings terminated, copy leaves the source unchanged and dst equal. All exported transitions plus simulated walks are replayed into the real functions (projection compared per step); every execution (incl. an ASan-instrumented build and seeded random sequences with both a never-reuse and a LIFO-reuse allocator policy) is judged by PropsObs in TLC.",
     note="Trusted: TLC; the link-time allocator seam (only allocations made inside library calls are recorded); init only on objects that own nothing, copy only between distinct objects; allocation failure is not injected; exhaustive for <= 3 objects, <= 2 dimensions, the seven string kinds to the stated depths."),
+ "C17": dict(
+    category="model_checking", design_ref="DESIGN.md section 6 (C17), section 15",
+    technique="TLA+ model checking (TLC, complete graph of SimCamConfig: properties in effect, clamping, strides, buffer sizes vs. rendered extent incl. both bin2 variants' index formulas, streamer capture/render phases) bound to simulated.camera.c by replay of exported histories (21 observables per call) and by TLC trace validation (SimCamObs) of allocator/shape/frame traces; sanitizer and checking-allocator reports enter only as events",
+    text="SimCamConfig.tla mirrors the camera's structs (properties, im.shape, both buffer sizes, HAL state, the streamer's capture/render pc with its captured full-resolution shape) with one action per HAL call over the real MAX of 8192, kinds x binning {1,2,4,8} x sample types x a boundary shape set x offsets; TLC completes the graph (unbounded histories) and checks reported shape/strides = clamped dims, read-back = in effect, frame copies exactly bytes_of_image, render extent (max of fill and every bin2 pass, AVX2 and plain) within the buffers, vector accesses legal for the buffers' alignment. Witness histories are replayed on the real code (AVX2 and plain builds); replayed plus directed/seeded scenarios (sets raced against the streamer at three gates, restarts, too-small caller buffers) run with a canary/quarantine allocator and under ASan, and every trace is judged by SimCamObs.",
+    note="Trusted: TLC; the transcription of the bin2 index formulas (watched by a drift counter on pcg/sinf calls); streaming executed only up to 1 MiB (16 MiB thorough) per frame, larger configurations by model and set/get replay; out-of-bounds accesses not captured by the transcribed formulas are caught only by the instruments on executed configurations; trigger off (C18 covers triggering)."),
 }
 
 def main():
